@@ -312,17 +312,17 @@ int parse_directives(AsmContext *asm_context)
     else
   if (strcmp(token, "ifdef") == 0)
   {
-    parse_ifdef(asm_context, 0);
+    if (parse_ifdef(asm_context, 0) != 0) { return -1; }
   }
     else
   if (strcmp(token, "ifndef") == 0)
   {
-    parse_ifdef(asm_context, 1);
+    if (parse_ifdef(asm_context, 1) != 0) { return -1; }
   }
     else
   if (strcmp(token, "if") == 0)
   {
-    parse_if(asm_context);
+    if (parse_if(asm_context) != 0) { return -1; }
   }
     else
   if (strcmp(token, "endif") == 0)
